@@ -18,6 +18,7 @@ RULE = ("(a) every sorted label multiset (size bound) over 0..11 x resolution {1
 ASSUMPTIONS = ["integer label coordinates", "createPeaks is driven with synthetic find_peaks property arrays"]
 
 
+@core.guarded(lambda pos, res, start, end, *a: dict(kind='vectorise', positions=pos, resolution=res, start=start, end=end))
 def check_vec(pos, res, start, end, acc):
     found = []
     case = dict(kind='vectorise', positions=pos, resolution=res, start=start, end=end)
@@ -49,6 +50,7 @@ def check_vec(pos, res, start, end, acc):
     return found
 
 
+@core.guarded(lambda v, r, *a: dict(kind='blur', vector=list(v), radius=r))
 def check_blur(v, r, acc):
     found = []
     case = dict(kind='blur', vector=list(v), radius=r)
@@ -69,6 +71,7 @@ def check_blur(v, r, acc):
     return found
 
 
+@core.guarded(lambda res, i, start, *a: dict(kind='centre', resolution=res, bin=i, start=start))
 def check_centre(res, i, start, acc):
     found = []
     case = dict(kind='centre', resolution=res, bin=i, start=start)
@@ -87,6 +90,7 @@ def check_centre(res, i, start, acc):
     return found
 
 
+@core.guarded(lambda heights, split, count, *a: dict(kind='peaks', heights=list(heights), split=list(split), count=count))
 def check_peaks(heights, split, count, acc):
     """heights: list of ints; split: tuple of group sizes (<=3 correlations)"""
     found = []
